@@ -11,8 +11,8 @@ use std::io::Write;
 use std::str::FromStr;
 
 pub fn h_pattern() {
-    let p = sym::any_str("p", "utf8", 0, sym::bound(3, 4));
-    let a = sym::any_str("a", "utf8", 0, sym::bound(2, 3));
+    let p = sym::any_str("p", "utf8", 0, sym::bound(3, 3));
+    let a = sym::any_str("a", "utf8", 0, sym::bound(2, 2));
     if let Ok(c) = Pattern::new(&p) {
         let m = c.matches(&a);
         let _ = c.best_match(&a, "pk-1.0");
@@ -26,7 +26,7 @@ pub fn h_pattern() {
 /// structured patterns: operators, braces, globs and long digit runs
 pub fn h_pattern_tokens() {
     let mut p = String::new();
-    let n = sym::choose("ntok", sym::bound(3, 4) + 1);
+    let n = sym::choose("ntok", sym::bound(3, 3) + 1);
     let mut i = 0;
     while i < n {
         match sym::choose("tok", 10) {
@@ -68,7 +68,7 @@ pub fn h_pattern_tokens() {
 }
 
 pub fn h_names() {
-    let s = sym::any_str("s", "utf8", 0, sym::bound(3, 5));
+    let s = sym::any_str("s", "utf8", 0, sym::bound(3, 4));
     let n = PkgName::new(&s);
     let _ = (n.pkgbase().len(), n.pkgversion().len(), n.pkgrevision());
     let _ = PkgPath::new(&s);
@@ -91,7 +91,7 @@ pub fn h_revision_digits() {
 pub fn h_summary_text() {
     // lines: a real or symbolic name, optional '=', symbolic value
     let mut t = String::new();
-    let n = sym::choose("nlines", sym::bound(2, 3) + 1);
+    let n = sym::choose("nlines", sym::bound(2, 2) + 1);
     let mut i = 0;
     while i < n {
         let kind = sym::choose("name", 5);
@@ -123,13 +123,13 @@ pub fn h_summary_text() {
 
 pub fn h_summary_stream() {
     let mut s = SummaryStream::new();
-    let k = sym::choose("nwrites", sym::bound(3, 4));
+    let k = sym::choose("nwrites", sym::bound(3, 3));
     let mut i = 0;
     while i < k {
         let chunk = match sym::choose("kind", 3) {
-            0 => sym::any_bytes("chunk", "bytes", 0, sym::bound(2, 4)),
+            0 => sym::any_bytes("chunk", "bytes", 0, sym::bound(2, 2)),
             1 => b"COMMENT=x\n\n".to_vec(),
-            _ => sym::any_bytes("nl", "hex:0a,3d,41,c3", 0, sym::bound(3, 5)),
+            _ => sym::any_bytes("nl", "hex:0a,3d,41,c3", 0, sym::bound(3, 3)),
         };
         let _ = s.write(&chunk);
         i += 1;
@@ -140,7 +140,7 @@ pub fn h_summary_stream() {
 }
 
 pub fn h_bytes_parsers() {
-    let b = sym::any_bytes("b", "bytes", 0, sym::bound(4, 5));
+    let b = sym::any_bytes("b", "bytes", 0, sym::bound(4, 4));
     let _ = Plist::from_bytes(&b);
     let _ = PlistEntry::from_bytes(&b);
     let d = Distinfo::from_bytes(&b);
@@ -167,7 +167,7 @@ pub fn h_distinfo_line() {
 pub fn h_plist_line() {
     let mut l: Vec<u8> = Vec::new();
     l.extend_from_slice(super::c14::CMDS[sym::choose("cmd", super::c14::CMDS.len())].as_bytes());
-    l.extend_from_slice(&sym::any_bytes("rest", "bytes", 0, sym::bound(2, 4)));
+    l.extend_from_slice(&sym::any_bytes("rest", "bytes", 0, sym::bound(2, 3)));
     let _ = PlistEntry::from_bytes(&l);
     let _ = Plist::from_bytes(&l).map(|p| (p.files().len(), p.files_prefixed().len(), p.install_cmds().len()));
     sym::check("C17/plist-line-returns", true);
@@ -175,7 +175,7 @@ pub fn h_plist_line() {
 
 pub fn h_scanindex() {
     let mut t: Vec<u8> = Vec::new();
-    let n = sym::choose("nlines", sym::bound(2, 3) + 1);
+    let n = sym::choose("nlines", sym::bound(2, 2) + 1);
     let mut i = 0;
     while i < n {
         match sym::choose("key", 5) {
@@ -185,7 +185,7 @@ pub fn h_scanindex() {
             3 => t.extend_from_slice(b"SCAN_DEPENDS="),
             _ => {}
         }
-        t.extend_from_slice(&sym::any_bytes("val", "hex:20,3a,3d,2f,2e,61,3e,7b,c3,a9,ff", 0, sym::bound(2, 4)));
+        t.extend_from_slice(&sym::any_bytes("val", "hex:20,3a,3d,2f,2e,61,3e,7b,c3,a9,ff", 0, sym::bound(2, 2)));
         t.push(b'\n');
         i += 1;
     }
@@ -206,7 +206,7 @@ pub fn h_pkgdb() {
     let root = sym::fs_root();
     let db = root.join("db");
     sym::fs_add_dir(&db);
-    let name = sym::any_str("name", "set:a-1.é", 1, sym::bound(3, 4));
+    let name = sym::any_str("name", "set:a-1.é", 1, sym::bound(3, 3));
     sym::assume(name != "." && name != "..");
     let dir = db.join(&name);
     sym::fs_add_dir(&dir);
@@ -227,7 +227,7 @@ pub fn h_pkgdb() {
 /// arbitrary short sequences of Summary setter / pusher / getter calls
 pub fn h_summary_calls() {
     let mut s = Summary::new();
-    let k = sym::choose("ncalls", sym::bound(2, 3) + 1);
+    let k = sym::choose("ncalls", sym::bound(2, 2) + 1);
     let mut i = 0;
     while i < k {
         let v = sym::choose("var", 23);
@@ -264,7 +264,7 @@ pub fn h_summary_calls() {
 /// short symbolic inputs cannot: narrow (8-bit) counters, per-item state that overflows, and loops whose cost grows
 /// faster than the input (a path over the interpreter's step cap is reported as a hang).
 pub fn h_long() {
-    let n = sym::bound(300, 700);
+    let n = sym::bound(300, 300);
     match sym::choose("shape", 14) {
         0 => {
             // distinfo: one recognised line followed by many further tokens
